@@ -973,22 +973,58 @@ func runFmtShape(m *model.Model, s *ob.Set) {
 			}
 		}
 		for _, fnn := range []string{"(*Decimal).fmtB", "(*Decimal).fmtP"} {
-			fn := m.Lookup(fnn)
-			var w []string
-			okm := true
-			for _, b := range fn.Blocks {
-				for _, in := range b.Instrs {
-					if st, ok := in.(*ssa.Store); ok {
-						if k, ok := model.ConstInt(st.Val); ok && (k >= 'A' && k <= 'Z' || k >= 'a' && k <= 'z') {
-							w = append(w, string(rune(k)))
-							if !marks[k] {
-								okm = false
+			fn := m.TryLookup(fnn)
+			if fn == nil {
+				continue
+			}
+			// the formatter and the byte-slice helpers of this package it calls (two levels)
+			fns := []*ssa.Function{fn}
+			seenFn := map[*ssa.Function]bool{fn: true}
+			for lvl := 0; lvl < 2; lvl++ {
+				for _, f := range append([]*ssa.Function(nil), fns...) {
+					for _, b := range f.Blocks {
+						for _, in := range b.Instrs {
+							cal, _ := model.Callee(in)
+							if cal == nil || seenFn[cal] || !m.InDecimalPkg(cal) || len(cal.Blocks) == 0 || cal.Signature.Recv() != nil {
+								continue
+							}
+							takesBytes := false
+							for i := 0; i < cal.Signature.Params().Len(); i++ {
+								if sl, ok := cal.Signature.Params().At(i).Type().Underlying().(*types.Slice); ok {
+									if bt, ok := sl.Elem().Underlying().(*types.Basic); ok && bt.Kind() == types.Uint8 {
+										takesBytes = true
+									}
+								}
+							}
+							if takesBytes {
+								seenFn[cal] = true
+								fns = append(fns, cal)
 							}
 						}
 					}
 				}
 			}
-			s.Check(okm && len(w) > 0, R, fnn+"/exponent-marker", m.Pos(fn.Pos()), "writes "+strings.Join(w, ","), "exponent marker "+strings.Join(w, ",")+" is not one scanExponent accepts (or none found)")
+			var w []string
+			okm := true
+			for _, f := range fns {
+				for _, b := range f.Blocks {
+					for _, in := range b.Instrs {
+						if st, ok := in.(*ssa.Store); ok {
+							if k, ok := model.ConstInt(st.Val); ok && (k >= 'A' && k <= 'Z' || k >= 'a' && k <= 'z') {
+								w = append(w, string(rune(k)))
+								if !marks[k] {
+									okm = false
+								}
+							}
+						}
+					}
+				}
+			}
+			if len(w) == 0 {
+				s.Note(R, fnn+"/exponent-marker", m.Pos(fn.Pos()), "no letter constant is appended here or in the byte-slice helpers it calls (the exponent is written some other way; not decided)")
+				continue
+			}
+			s.Check(okm, R, fnn+"/exponent-marker", m.Pos(fn.Pos()), "writes "+strings.Join(w, ","), "exponent marker "+strings.Join(w, ",")+" is not one scanExponent accepts")
 		}
 	}
 	// VERBS
